@@ -66,6 +66,10 @@ pub enum ModelEvaluatorError {
   DecisionTableWithoutOutputClause,
   #[error("rule {0} of the decision table has {1} input and {2} output entries, expected {3} and {4}")]
   InvalidNumberOfRuleEntries(usize, usize, usize, usize, usize),
+  #[error("cyclic requirements, element with identifier `{0}` requires itself")]
+  CyclicRequirements(String),
+  #[error("cyclic item definitions, `{0}` references itself")]
+  CyclicItemDefinitions(String),
   #[error("read lock failed with reason '{0}'")]
   ReadLockFailed(String),
   #[error("write lock failed with reason '{0}'")]
@@ -76,6 +80,14 @@ impl From<ModelEvaluatorError> for DmntkError {
   fn from(e: ModelEvaluatorError) -> Self {
     DmntkError::new("ModelEvaluatorError", &e.to_string())
   }
+}
+
+pub fn err_cyclic_requirements(id: &str) -> DmntkError {
+  ModelEvaluatorError::CyclicRequirements(id.to_string()).into()
+}
+
+pub fn err_cyclic_item_definitions(name: &str) -> DmntkError {
+  ModelEvaluatorError::CyclicItemDefinitions(name.to_string()).into()
 }
 
 pub fn err_decision_table_without_output_clause() -> DmntkError {
